@@ -96,3 +96,51 @@ Print Assumptions C05_progress.
 Print Assumptions C05_recovery_reaches_leader.
 Print Assumptions C05_tables_converge_to_none.
 Print Assumptions C05_tables_minimal_change.
+
+(* ---- one poll, end to end: the stream of C06 consumed by the worker IS the abstract poll of the model above ----
+   Model/Pipeline.v: what LogServer.Replicate streams (Model/LogReader.v, over ANY reader service - cached or not, any
+   cache state under an invariant - whose single answers are exact), consumed by worker.do/proposeBatch: each message cut
+   into proposals anywhere, each proposal one SEQUENCE tagged with the leader index the stream attached to its last
+   command.  For a follower that recorded leader index r (marker <= r <= applied): afterwards it has applied exactly the
+   leader's entries r+1 .. applied, each once and in leader order, and records leader index applied - the [apply_seq] of
+   an [APoll] with n = applied - r. *)
+From Verif Require Model.Pipeline Proofs.PipelineFacts Model.LogReader Proofs.LogReaderFacts.
+Theorem C05_poll_is_the_stream_consumed :
+  forall (S C : Type) (app : S -> C -> S) (cmd_of : LogReader.rcmd -> C) (l : LogReader.rlog) (applied : N),
+  LogReaderFacts.wf_log l -> (applied <= LogReader.llast l)%N ->
+  forall (q : LogReader.cache -> LogReader.lrange -> (list LogReader.lentry + LogReader.qerr) * LogReader.cache) (Inv : LogReader.cache -> Prop),
+  (forall c F, Inv c -> (1 <= F)%N -> (LogReader.marker l < F <= applied + 1)%N \/ (F <= LogReader.marker l)%N ->
+     LogReaderFacts.exact_answer l applied F (fst (q c {| LogReader.rfirst := F; LogReader.rlast := (applied + 1)%N |})) /\
+     Inv (snd (q c {| LogReader.rfirst := F; LogReader.rlast := (applied + 1)%N |}))) ->
+  forall (fuel : nat) (c : LogReader.cache) (f : fol S) (sizes : list (list nat)),
+  let r := f_lidx S f in
+  let F := (N.of_nat r + 1)%N in
+  Inv c -> (LogReader.marker l < F <= applied + 1)%N ->
+  length (LogReader.range_entries l F (applied + 1)%N) < fuel ->
+  let ms := fst (LogReader.replicate_loop fuel q c applied {| LogReader.rfirst := F; LogReader.rlast := (applied + 1)%N |}) in
+  let es := map (PipelineFacts.ecmd C cmd_of) (LogReader.range_entries l F (applied + 1)%N) in
+  Pipeline.consume S C app cmd_of f ms sizes = apply_seq S C app f es (r + length es) /\ r + length es = N.to_nat applied.
+Proof. exact PipelineFacts.poll_exact. Qed.
+Print Assumptions C05_poll_is_the_stream_consumed.
+
+(* however a message is cut into proposals, its commands are applied once, in order, and the recorded index is the label
+   of its last command *)
+Theorem C05_proposals_apply_every_command_once :
+  forall (S C : Type) (app : S -> C -> S) (cmd_of : LogReader.rcmd -> C) (sizes : list nat) (cs : list (LogReader.rcmd * N)) (f : fol S),
+  f_store S (Pipeline.propose_stream S C app cmd_of f cs sizes) = fold_left app (PipelineFacts.cmds C cmd_of cs) (f_store S f) /\
+  f_lidx S (Pipeline.propose_stream S C app cmd_of f cs sizes) = match cs with [] => f_lidx S f | _ => PipelineFacts.lbl S f cs end.
+Proof. exact PipelineFacts.propose_stream_flat. Qed.
+Print Assumptions C05_proposals_apply_every_command_once.
+
+(* non-vacuity: a log compacted up to 2 holding entries 3..6 (entry 5 is not a command), applied = 5; a follower at
+   leader index 3 polls through the plain reader, which hands out one entry per answer: two messages, entries 4 and 5
+   applied in order (the non-command as a dummy), leader index 5; entry 6 is not shipped *)
+Example C05_pipeline_example :
+  let e := fun i enc => {| LogReader.eidx := i; LogReader.epay := 100 + i; LogReader.esz := 10; LogReader.eenc := enc |} in
+  let l := {| LogReader.marker := 2; LogReader.lents := [e 3%N true; e 4%N true; e 5%N false; e 6%N true] |} in
+  let q := fun (c : LogReader.cache) r => (LogReader.simple_query (fun _ _ _ => 1%nat) l r 1000%N, c) in
+  let cmd_of := fun (c : LogReader.rcmd) => match c with LogReader.RCmd p => N.to_nat p | LogReader.RDummy => 0%nat end in
+  let f := {| f_store := [103%nat]; f_lidx := 3 |} in
+  let ms := fst (LogReader.replicate_loop 10 q {| LogReader.buf := []; LogReader.csize := 0 |} 5%N {| LogReader.rfirst := 4%N; LogReader.rlast := 6%N |}) in
+  Pipeline.consume (list nat) nat (fun s c => c :: s) cmd_of f ms [[]; []] = {| f_store := [0%nat; 104%nat; 103%nat]; f_lidx := 5 |}.
+Proof. vm_compute. reflexivity. Qed.
